@@ -22,8 +22,8 @@ type op struct {
 func (o op) String() string { return fmt.Sprintf("%s(%d)", o.K, o.A) }
 
 type sys struct {
-	capa  int
-	rb    interface {
+	capa int
+	rb   interface {
 		Write(int) error
 		Read() (int, error)
 		ReadN([]int) int
